@@ -562,7 +562,9 @@ class Run(object):
                     out = tools.twosided_2_onesided(cur)
                     exp = refmodel.render(T, "onesided"); nrep = "onesided"
                 elif name == "onesided_2_twosided":
-                    out = tools.onesided_2_twosided(cur) if M % 2 == 0 else tools.onesided_2_twosided(cur, even=False)
+                    # the parity flag as a caller would compute it: a Python bool, or a numpy bool from numpy ints
+                    flag = (M % 2 == 0) if (idx + j) % 3 else np.bool_(M % 2 == 0)
+                    out = tools.onesided_2_twosided(cur) if (M % 2 == 0 and (idx + j) % 2) else tools.onesided_2_twosided(cur, even=flag)
                     exp = T.copy(); nrep = "twosided"
                 elif name == "cshift_half":
                     # the idiom the package documents for centring a two-sided PSD (correlog.py, modcovar.py)
